@@ -6,7 +6,39 @@ V = os.path.dirname(os.path.dirname(os.path.abspath(__file__)))
 BASE_NOTE = ("Trusted: Lean 4.33.0 kernel; axioms per theorem audited each run to be within {propext, Classical.choice, Quot.sound}; "
              "the hand-written Lean model is tied to /repo only by the regenerated tables and by the differential correspondence run of this command "
              "(generators bound what it sees); Python runtime, hashlib and libsodium are modelled, not verified. ")
+GENERIC = ("The theorems quantify over an ARBITRARY op table written in the model's primitive vocabulary (read/pop/push/cache/call/sub/tryCatch/loop ...), "
+           "every script, cache, limit triple and fuel; they are proved by induction on the interpreter. ")
 CLAIMS = {
+ 'C01': dict(
+   text=GENERIC + "Proved: runAuth is true iff the whole list ran without error and the stack is exactly [ff]; an authorized list ran every script from its first byte in a fresh frame to the end of its tape; "
+        "later scripts do not depend on an incoming RETURN flag; return hygiene - no instruction of any frame at any depth is ever fetched with a RETURN pending (ghost assertion in the interpreter shown unreachable). "
+        "Tie: run_auth_scripts vs the model on adversarial witness x lock lists (verdict and final state), and on the implementation alone: hand-composed channel oracle through run_script/run_tape, "
+        "the same ghost assertion installed on the real dispatch table, never-raises, python -O re-runs.",
+   note="definition-dictionary aliasing and per-function call counters of the Python objects are modelled in a heap (validated differentially, not proved equivalent).",
+   technique="Lean 4 proof (induction on fuel over a free-monad op DSL; ghost assertion unreachable) + differential correspondence + instrumented ghost assertion on the implementation",
+   design="§5 C01"),
+ 'C06': dict(
+   text="The Lean model of all 92 instructions + NOP codes, written instruction by instruction from the documented semantics, is the reference; control-flow scoping laws (IF/ELSE/TRY bodies transparent to RETURN, "
+        "EVAL returns only to its caller, EXCEPT runs on the state the failure left, a RETURN never leaks past the construct it ended) are theorems of that reference for an arbitrary op table. "
+        "Conformance of the implementation to the reference is decided by the differential run over the whole opcode table (deterministic per-opcode tour, clean and perturbed program streams, control-flow stream, "
+        "all cache value types, plugins/contracts, limits), comparing success/error, stack, cache, returned flag, plugin log, random draws and call counter; a disagreement is shrunk and is the failing input.",
+   note="conformance itself is differential testing against a reference with proved structural laws, not a theorem about the Python code; float arithmetic executed with Lean Float (opaque to the kernel); error messages not modelled, classes compared softly; cases that read an exception message are compared on success/error only.",
+   technique="Lean 4 reference semantics with proved control-flow laws + differential correspondence over the full opcode table",
+   design="§5 C06"),
+ 'C07': dict(
+   text=GENERIC + "Proved: the stack invariant (<= max_items items, each <= max_item_size) holds on every outcome of every run, with the state at the point of failure for failed runs; push is all-or-nothing and a limit overrun is a ScriptExecutionError leaving the state untouched; "
+        "reads past the end, calls/evaluations at the limit and loops past the iteration budget are ScriptExecutionErrors; a successful run consumed its whole tape. "
+        "Tie: instrumented runs of the real VM (recording deque/Stack/Tape, wrapped dispatch) are judged at every step against the limits and the primitive contracts the theorems rest on (no deque mutation bypassing put, no drops, no backward reads, "
+        "CALL/EVAL nesting and LOOP iterations within the limit, limit errors are ScriptExecutionError), tracemalloc bound per instruction, plus the differential run on resource-hungry programs.",
+   note="Python's recursion limit, C stack and real memory are runtime behaviour the model cannot exhibit (known finding K3 is demonstrated by replay); termination (enough fuel always exists) is not yet proved for the heap-resident call counters - listed as OPEN in Props/C07.lean.",
+   technique="Lean 4 proof of limit invariants generic over the op table + instrumented-trace oracle on the implementation + differential correspondence",
+   design="§5 C07"),
+ 'C08': dict(
+   text=GENERIC + "Proved: after any run (script or authorization list, successful or failed, state taken at the point of failure) every string-keyed cache entry is exactly what it was - none added, changed or removed; hence sigfields and timestamp are unchanged. "
+        "Tie: a recording dict as the cache of the real VM logs every write/delete with its key as it happens, deep snapshots detect in-place mutation of values, run_script's returned cache is compared with its input, and the model's whole cache is compared with the implementation's on cache-writing programs with keys spelling the protected names.",
+   note="the model keeps the RETURN flag in its own field; the code keeps it under the string key 'returned' (known finding K5), which the oracle allows for exactly that key.",
+   technique="Lean 4 frame theorem generic over the op table + recording-dict oracle on the implementation + differential correspondence",
+   design="§5 C08"),
  'C10': dict(
    text="Lean theorems over all integers / all byte strings: bytesToInt (intToBytes n) = some n, decoding total exactly on non-empty strings, decoded range, "
         "top bit of the encoding = sign, and minimality of the encoding (no shorter string decodes to n). The model is tied to int_to_bytes / bytes_to_int / "
